@@ -235,7 +235,10 @@ func drawPKI(t *rapid.T) *pki {
 	var ents []ent
 	id := 0
 	valGen := rapid.SampledFrom([]string{"ok", "ok", "ok", "ok", "ok", "ok", "ok", "ok", "ok", "ok", "ok", "ok", "expired", "notyet", "edge_start", "edge_end"})
-	kuGen := rapid.SampledFrom([]gx.KeyUsage{0, 0, 0, gx.KeyUsageCertSign, gx.KeyUsageCertSign, gx.KeyUsageCertSign | gx.KeyUsageCRLSign, gx.KeyUsageCertSign | gx.KeyUsageCRLSign, gx.KeyUsageCertSign | gx.KeyUsageDigitalSignature, gx.KeyUsageCertSign | gx.KeyUsageDigitalSignature, gx.KeyUsageDigitalSignature})
+	// (decipherOnly is the ninth bit, alone in the second octet of the BIT STRING: a key usage that asserts only it, or
+	// only encipherOnly, is present and does not include keyCertSign)
+	kuGen := rapid.SampledFrom([]gx.KeyUsage{0, 0, 0, gx.KeyUsageCertSign, gx.KeyUsageCertSign, gx.KeyUsageCertSign | gx.KeyUsageCRLSign, gx.KeyUsageCertSign | gx.KeyUsageCRLSign, gx.KeyUsageCertSign | gx.KeyUsageDigitalSignature, gx.KeyUsageCertSign | gx.KeyUsageDigitalSignature, gx.KeyUsageDigitalSignature,
+		gx.KeyUsageDecipherOnly, gx.KeyUsageEncipherOnly, gx.KeyUsageCertSign | gx.KeyUsageDecipherOnly, gx.KeyUsageKeyAgreement | gx.KeyUsageDecipherOnly})
 	mplGen := rapid.SampledFrom([]int{-1, -1, -1, -1, -1, -1, 0, 1, 1, 2})
 	ncGen := rapid.SampledFrom([][]string{nil, nil, nil, nil, nil, nil, nil, nil, nil, {"example.com"}, {"example.com"}, {".example.com"}, {"other.org"}, {"example.com", "other.org"}})
 	caAttrs := func(s *spec, hostile bool) {
